@@ -727,7 +727,7 @@ theorem handleWaker_good {cfg} (ok : CfgOk cfg) : ∀ (fuel : Nat) (s : St), Acc
           have g2 : Good cfg { s0 with wq := q, avail := upd s0.avail idx true } :=
             goodC_wake h0.good h0.pend idx q hcwq
           have h2 : AccInv cfg { s0 with wq := q, avail := upd s0.avail idx true } := ⟨g2, h0.pend, h0.sched⟩
-          simp only [hh, ↓reduceIte, setAvail, h512]
+          simp only [wakePrim, hh, ↓reduceIte, setAvail, h512]
           split
           · exact ih _ (acceptAll_good ok h2)
           · exact ih _ h2
